@@ -134,12 +134,36 @@ def field_ops(fnode, recv, attr):
     return out
 
 
+def predicate_method_body(f, call):
+    """the expression a call `self.m()` stands for when m is a method of the same class whose whole body is `return <expr>` over the same
+    receiver name (a predicate extracted into a method); None otherwise"""
+    if f is None or getattr(f, 'cls', None) is None or not isinstance(call, ast.Call) or call.args or call.keywords:
+        return None
+    fn = call.func
+    a = f.node.args.posonlyargs + f.node.args.args
+    if not (isinstance(fn, ast.Attribute) and a and is_name(fn.value, a[0].arg)):
+        return None
+    m = f.cls.methods.get(fn.attr)
+    if m is None or m.node.decorator_list:
+        return None
+    ma = m.node.args.posonlyargs + m.node.args.args
+    if len(ma) != 1 or ma[0].arg != a[0].arg or m.node.args.vararg or m.node.args.kwarg or m.node.args.kwonlyargs:
+        return None
+    body = [st for st in m.node.body if not (isinstance(st, ast.Expr) and isinstance(st.value, ast.Constant))]
+    if len(body) == 1 and isinstance(body[0], ast.Return) and body[0].value is not None:
+        v = body[0].value
+        if not any(isinstance(x, (ast.Call,)) and isinstance(x.func, ast.Attribute) and x.func.attr == fn.attr for x in ast.walk(v)):
+            return v
+    return None
+
+
 class BoolEval:
     """L6a: truth tables of boolean expressions over named atoms."""
 
-    def __init__(self, atom_of, resolve_name=None):
+    def __init__(self, atom_of, resolve_name=None, host=None):
         self.atom_of = atom_of            # expr -> (atom_name, polarity) | None
         self.resolve_name = resolve_name  # Name -> expr | None
+        self.host = host                  # function the expressions live in (lets `self.pred()` be seen through)
 
     def eval(self, e, val, depth=0):
         if depth > 12:
@@ -161,6 +185,10 @@ class BoolEval:
             return self.eval(e.body, val, depth + 1) if self.eval(e.test, val, depth + 1) else self.eval(e.orelse, val, depth + 1)
         if isinstance(e, ast.Name) and self.resolve_name is not None:
             r = self.resolve_name(e)
+            if r is not None:
+                return self.eval(r, val, depth + 1)
+        if isinstance(e, ast.Call) and self.host is not None:
+            r = predicate_method_body(self.host, e)
             if r is not None:
                 return self.eval(r, val, depth + 1)
         if isinstance(e, ast.Compare) and len(e.ops) == 1 and isinstance(e.ops[0], (ast.Eq, ast.NotEq, ast.Is, ast.IsNot)):
